@@ -71,6 +71,17 @@ Definition where_ids (s : store) (name : string) (w : option expr) : res (list N
 Definition lit_of (x : vexpr) : option value :=
   match x with XLit v => Some v | XCol _ => None end.
 
+(* the check loops of EvaluateInsert / EvaluateUpdate: the first refusal, in list order *)
+Fixpoint first_err {A} (chk : A -> res unit) (l : list A) : res unit :=
+  match l with
+  | [] => Ok tt
+  | a :: r => match chk a with
+              | Ok _ => first_err chk r
+              | Err e => Err e
+              | Panic => Panic
+              end
+  end.
+
 Definition run_stmt (s : store) (st : stmt) : effect :=
   match st with
   | SCreateTable name cols =>
@@ -80,15 +91,25 @@ Definition run_stmt (s : store) (st : stmt) : effect :=
       | (s1, Panic) => mkEffect s1 [] false OPanic
       end
   | SInsert name cols rows =>
-      let '(s1, b, o) := insert_rows s name cols rows [] 0 in mkEffect s1 b false o
+      (* every row is checked against the store as it is before the first one is stored *)
+      match first_err (check_insert s name cols) rows with
+      | Ok _ => let '(s1, b, o) := insert_rows s name cols rows [] 0 in mkEffect s1 b false o
+      | Err e => mkEffect s [] false (OErr e)
+      | Panic => mkEffect s [] false OPanic
+      end
   | SUpdate name sets w =>
       if existsb (fun sv => match snd sv with XCol _ => true | _ => false end) sets
       then mkEffect s [] false (OErr ETmpUnsupported)
       else match where_ids s name w with
            | Ok ids =>
                let vals := map (fun sv => match snd sv with XLit v => v | _ => VNull end) sets in
-               let '(s1, b, o) := update_rows s name (map fst sets) vals ids [] in
-               mkEffect s1 b false o
+               (* every matching row is checked before the first one is changed *)
+               match first_err (fun k => check_update s name k (map fst sets) vals) ids with
+               | Ok _ => let '(s1, b, o) := update_rows s name (map fst sets) vals ids [] in
+                         mkEffect s1 b false o
+               | Err e => mkEffect s [] false (OErr e)
+               | Panic => mkEffect s [] false OPanic
+               end
            | Err e => mkEffect s [] false (OErr e)
            | Panic => mkEffect s [] false OPanic
            end
